@@ -266,6 +266,25 @@ def c12_predicates(res, crystal, tol):
     return p
 
 
+SHARED = {}
+PREV = {}
+
+
+def collect_reused(a):
+    """the getters the properties talk about, on an analyzer that has seen other crystals before"""
+    def lst(x, f):
+        return [None if v is None else f(v) for v in x]
+    sets = a.get_wyckoff_sets_conventional(return_parameters=False)
+    return {"sets": [[str(s.wyckoff_letter), str(s.element), int(s.atomic_number), int(s.multiplicity), [int(i) for i in s.indices]] for s in sets],
+            "letters": {"original": lst(a.get_wyckoff_letters_original(), str), "primitive": lst(a.get_wyckoff_letters_primitive(), str),
+                        "conventional": lst(a.get_wyckoff_letters_conventional(), str)},
+            "equiv": {"original": lst(a.get_equivalent_atoms_original(), int), "primitive": lst(a.get_equivalent_atoms_primitive(), int),
+                      "conventional": lst(a.get_equivalent_atoms_conventional(), int)},
+            "prim_numbers": [int(z) for z in a.get_primitive_system().get_atomic_numbers()],
+            "conv_numbers": [int(z) for z in a.get_conventional_system().get_atomic_numbers()],
+            "number": int(a.get_space_group_number()), "has_free": bool(a.get_has_free_wyckoff_parameters())}
+
+
 def analyze(case, want_families):
     from ase import Atoms
     from matid.symmetry.symmetryanalyzer import SymmetryAnalyzer
@@ -307,6 +326,25 @@ def analyze(case, want_families):
     res["prim"] = sysd(prim)
     res["c07"] = c07_predicates(res, tol, want_families)
     res["c12"] = c12_predicates(res, cr, tol)
+    # history: ONE analyzer object per tolerance is handed every crystal of this process through set_system(); every getter
+    # must answer as the fresh analyzer above did
+    try:
+        sh = SHARED.get(tol)
+        if sh is None:
+            sh = SHARED[tol] = SymmetryAnalyzer(at.copy(), symmetry_tol=tol)
+        else:
+            sh.set_system(at.copy())
+        got = collect_reused(sh)
+        want = {"sets": res["sets"], "letters": res["letters"], "equiv": res["equiv"], "prim_numbers": res["prim"]["numbers"],
+                "conv_numbers": res["conv"]["numbers"], "number": res["dataset"]["number"], "has_free": bool(a.get_has_free_wyckoff_parameters())}
+        diff = [k for k in want if got[k] != want[k]]
+        res["reuse"] = {"same": not diff, "differs_in": diff, "previous_crystal": PREV.get(tol) if diff else None,
+                        "reused": {k: got[k] for k in diff}}
+    except Exception as e:  # noqa
+        res["reuse"] = {"same": False, "differs_in": ["raised " + type(e).__name__ + ": " + str(e)[:150]], "previous_crystal": PREV.get(tol)}
+    PREV[tol] = cr
+    res["c07"]["analyzer_reuse"] = res["reuse"]["same"]
+    res["c12"]["analyzer_reuse"] = res["reuse"]["same"]
     return res
 
 
